@@ -36,8 +36,9 @@ Differences from the key-value indexer (`Model/Indexer.lean`), all read off the 
 3. the filter script of `get_transactions` is a PREFIX range on the sibling script (the key-value
    indexer does an exact point lookup); `get_transactions` supports every cell filter.
 4. `get_cells_capacity` answers `None` when no row matches (SUM is NULL), not `Some(0)`.
-5. ungrouped `get_transactions` cursor = (last tx_id, number of rows of that tx AT THE END OF THE
-   PAGE) used as `tx_id >= last OFFSET n`: the count restarts on every page (code as written).
+5. ungrouped `get_transactions` cursor = (last tx_id, number of rows of that tx returned so far)
+   used as `tx_id >= last OFFSET n` (since the repair 706cf75 the count continues across pages;
+   `getTxsPreF24` is the old arithmetic, whose walk could cycle).
 6. PARTIAL search mode exists (`instr`).
 -/
 namespace CkbVerif.Rich
@@ -416,16 +417,24 @@ def trailingCount (page : List RTxRow) : Nat :=
   | none => 0
   | some l => (page.reverse.takeWhile fun r => r.txId = l.txId).length
 
-/-- one ungrouped `get_transactions` call: (objects, last_cursor = (last tx_id, count));
-`last_id` starts at 0, so an empty page answers the cursor (0, 0) -/
+/-- one row of the cursor computation: `if id == last_id { count += 1 } else { last_id = id; count = 1 }` -/
+def cursorStep (c : Nat × Nat) (r : RTxRow) : Nat × Nat :=
+  if r.txId = c.1 then (c.1, c.2 + 1) else (r.txId, 1)
+
+/-- the rows an ungrouped call sees: `ORDER BY tx_id`, then `tx_id >= last` (`<=` for Desc) and `OFFSET n` -/
+def txsAfter (rows : List RTxRow) (desc : Bool) (after : Option (Nat × Nat)) : List RTxRow :=
+  match after with
+  | none => rows
+  | some (last, off) => (rows.filter fun (r : RTxRow) => if desc then r.txId ≤ last else last ≤ r.txId).drop off
+
+/-- one ungrouped `get_transactions` call: (objects, last_cursor = (last tx_id, rows of that
+transaction returned SO FAR)). Since the repair 706cf75 the computation starts from the incoming
+cursor (`last_cursor.unwrap_or((0, 0))`): rows of the same transaction continue its count, and an
+empty page answers the incoming cursor. -/
 def getTxs (db : DB) (lockSearch : Bool) (m : Mode) (q : Script) (f : Filter) (desc : Bool)
     (limit : Nat) (after : Option (Nat × Nat)) : List RTxRow × (Nat × Nat) :=
-  let rows := sortByTx desc (txRows db lockSearch m q f)
-  let rows := match after with
-    | none => rows
-    | some (last, off) => (rows.filter fun (r : RTxRow) => if desc then r.txId ≤ last else last ≤ r.txId).drop off
-  let page := rows.take limit
-  (page, ((page.getLast?.map (·.txId)).getD 0, trailingCount page))
+  let page := (txsAfter (sortByTx desc (txRows db lockSearch m q f)) desc after).take limit
+  (page, page.foldl cursorStep (after.getD (0, 0)))
 
 def getTxsPages (db : DB) (lockSearch : Bool) (m : Mode) (q : Script) (f : Filter) (desc : Bool)
     (limit : Nat) : Nat → Option (Nat × Nat) → List (List RTxRow)
@@ -433,6 +442,14 @@ def getTxsPages (db : DB) (lockSearch : Bool) (m : Mode) (q : Script) (f : Filte
   | fuel + 1, after =>
     let r := getTxs db lockSearch m q f desc limit after
     if r.1.isEmpty then [[]] else r.1 :: getTxsPages db lockSearch m q f desc limit fuel (some r.2)
+
+/-- the call as it was BEFORE the repair 706cf75 (F24): the count restarted on every page
+(`last_id = 0; count = 0`), i.e. cursor = (last tx_id of the page, rows of it AT THE END OF THE PAGE);
+kept for the pre-fix witness only -/
+def getTxsPreF24 (db : DB) (lockSearch : Bool) (m : Mode) (q : Script) (f : Filter) (desc : Bool)
+    (limit : Nat) (after : Option (Nat × Nat)) : List RTxRow × (Nat × Nat) :=
+  let page := (txsAfter (sortByTx desc (txRows db lockSearch m q f)) desc after).take limit
+  (page, ((page.getLast?.map (·.txId)).getD 0, trailingCount page))
 
 structure RTxGroup where
   txId : Nat
